@@ -31,10 +31,11 @@ type Recorder struct {
 	Envs   map[string][]EnvRec
 	Defers map[string][]string
 	Setup  map[string][]string // setup-time observations (e.g. listing of the work dir)
+	Std    map[string][]string // stdout buffers recorded by "recstd"
 }
 
 func NewRecorder() *Recorder {
-	return &Recorder{Probes: map[string][]ProbeRec{}, Envs: map[string][]EnvRec{}, Defers: map[string][]string{}, Setup: map[string][]string{}}
+	return &Recorder{Probes: map[string][]ProbeRec{}, Envs: map[string][]EnvRec{}, Defers: map[string][]string{}, Setup: map[string][]string{}, Std: map[string][]string{}}
 }
 
 func relWork(ts *testscript.TestScript, abs string) string {
@@ -58,6 +59,11 @@ func (r *Recorder) Cmds() map[string]func(ts *testscript.TestScript, neg bool, a
 			for _, a := range args {
 				r.Envs[ts.Name()] = append(r.Envs[ts.Name()], EnvRec{a, ts.Getenv(a)})
 			}
+			r.mu.Unlock()
+		},
+		"recstd": func(ts *testscript.TestScript, neg bool, args []string) {
+			r.mu.Lock()
+			r.Std[ts.Name()] = append(r.Std[ts.Name()], ts.ReadFile("stdout"))
 			r.mu.Unlock()
 		},
 		"failcmd": func(ts *testscript.TestScript, neg bool, args []string) {
